@@ -15,6 +15,9 @@ class Batch:
     1-based index (`di`, `si`), which keeps the JSON small and lets the specification
     evaluate validity of each document once."""
 
+    # paths inside an event that hold 1-based indices (or lists of indices) into `docs`
+    docref_paths = (("di",), ("di2",), ("doc",), ("docs",), ("replay", "docs"), ("undo", "doc"), ("dis",))
+
     def __init__(self, schema_js):
         self.schema_js = schema_js
         self.docs = []
@@ -47,16 +50,36 @@ class Batch:
 
 
 def _shard_input(b: Batch, part: list, extra: dict | None):
+    import copy
     dmap, smap, docs, slices, evs = {}, {}, [], [], []
+
+    def dref(v):
+        if isinstance(v, list):
+            return [dref(x) for x in v]
+        if v not in dmap:
+            docs.append(b.docs[v - 1])
+            dmap[v] = len(docs)
+        return dmap[v]
     for e in part:
-        e = dict(e)
-        for key, table, mp, src in (("di", docs, dmap, b.docs), ("si", slices, smap, b.slices),
-                                    ("di2", docs, dmap, b.docs)):
-            if key in e:
-                if e[key] not in mp:
-                    table.append(src[e[key] - 1])
-                    mp[e[key]] = len(table)
-                e[key] = mp[e[key]]
+        e = copy.copy(e)
+        for path in b.docref_paths:
+            holder = e
+            ok = True
+            for key in path[:-1]:
+                if isinstance(holder, dict) and key in holder and isinstance(holder[key], dict):
+                    holder[key] = dict(holder[key])
+                    holder = holder[key]
+                else:
+                    ok = False
+                    break
+            if ok and isinstance(holder, dict) and path[-1] in holder and isinstance(holder[path[-1]], (int, list)) \
+                    and not isinstance(holder[path[-1]], bool):
+                holder[path[-1]] = dref(holder[path[-1]])
+        if "si" in e:
+            if e["si"] not in smap:
+                slices.append(b.slices[e["si"] - 1])
+                smap[e["si"]] = len(slices)
+            e["si"] = smap[e["si"]]
         evs.append(e)
     obj = {"schema": b.schema_js, "docs": docs, "slices": slices, "events": evs}
     obj.update(extra or {})
@@ -73,11 +96,20 @@ def validate_many(jobs: list, stats: core.Stats, *, shards: int = 16, timeout: i
         if not b.events:
             continue
         n = max(1, min(shards, (len(b.events) + 199) // 200))
-        # keep events of one document together (validity of a document is evaluated once per shard)
-        order = sorted(b.events, key=lambda e: (e.get("di", 0), e["id"]))
-        per = (len(order) + n - 1) // n
-        for k in range(n):
-            part = order[k * per:(k + 1) * per]
+        if b.events and "tid" in b.events[0]:
+            # sessions: events of one tid stay together and in order
+            groups = {}
+            for e in b.events:
+                groups.setdefault(e["tid"], []).append(e)
+            parts = [[] for _ in range(n)]
+            for gi, tid in enumerate(sorted(groups)):
+                parts[gi % n].extend(groups[tid])
+        else:
+            # keep events of one document together (validity of a document is evaluated once per shard)
+            order = sorted(b.events, key=lambda e: (e.get("di", 0), e["id"]))
+            per = (len(order) + n - 1) // n
+            parts = [order[k * per:(k + 1) * per] for k in range(n)]
+        for part in parts:
             if part:
                 plan.append((ji, part, {"PMV_INPUT": tlc.write_input(_shard_input(b, part, extra), "trace")}))
     # longest first
